@@ -312,8 +312,74 @@ def run(ctx):
                            "differs_on": [x.decode() for x in diff], "implementation": [x.decode() for x in got], "expected": [x.decode() for x in exp],
                            "explain": "C13_record / C13_xtype_opposite / C13_lname_only_unresolved / C13_perm_* fix the verdict from the selected record",
                            "total_disagreements": len(bad)})
+        unreadable_record(ctx)
+        perm_prefix_octal(ctx, forest)
     finally:
         forest.close()
+
+
+def unreadable_record(ctx):
+    """the tests are functions of a status record: where the record cannot be read (as an unprivileged user: the entries of a directory
+    that may be listed but not searched, a link into it, a directory that may not be read for -empty) no test is true for the entry, and
+    that does not pass silently - it is named in a diagnostic and the exit status is 1"""
+    import shutil
+    import subprocess
+    import tempfile
+    from props import known_common as kc
+    os.makedirs(os.path.join(fw.BUILD, "tmp"), exist_ok=True)
+    d = tempfile.mkdtemp(prefix="c13u-", dir=os.path.join(fw.BUILD, "tmp"))
+    try:
+        os.makedirs(os.path.join(d, "r", "nox", "sub"))
+        os.makedirs(os.path.join(d, "e1"))
+        open(os.path.join(d, "r", "nox", "f"), "wb").close()
+        os.symlink("nox/f", os.path.join(d, "r", "l2"))
+        os.chmod(d, 0o755)
+        pre = kc.unprivileged(d.encode())
+        if pre is None:
+            ctx.notes.append("unreadable_record: no unprivileged user available here, scenario skipped")
+            return
+        os.chmod(os.path.join(d, "r", "nox"), 0o444)
+        os.chmod(os.path.join(d, "e1"), 0o311)
+        rows = [(["r/l2", "(", "-xtype", "f", "-o", "-xtype", "l", "-o", "-xtype", "d", ")"], "r/l2"),
+                (["r/nox", "-mindepth", "1", "-nouser"], "r/nox/f"), (["r/nox", "-mindepth", "1", "-nogroup"], "r/nox/sub"),
+                (["r/nox", "-mindepth", "1", "(", "-user", "0", "-o", "!", "-user", "0", ")", "-links", "+0"], "r/nox/f"),
+                (["e1", "-maxdepth", "0", "-empty"], "e1")]
+        for args, entry in rows:
+            p = subprocess.run(pre + [fw.FIND] + args, stdout=subprocess.PIPE, stderr=subprocess.PIPE, cwd=d, env=xc.ENV, timeout=60)
+            ctx.count(("unreadable-record", tuple(args)), True, "unreadable-record")
+            listed = entry.encode() in p.stdout.split(b"\n")
+            if listed or p.returncode != 1 or entry.encode() not in p.stderr:
+                ctx.violation("find %s as an unprivileged user: %s %s, exit %d, diagnostics %r; its status cannot be read: not matched, diagnosed, exit 1"
+                              % (" ".join(args), entry, "is listed" if listed else "is not listed", p.returncode, p.stderr[:120]),
+                              {"property": "C13", "kind": "unreadable-record", "find_args": args, "entry": entry, "exit": p.returncode,
+                               "stdout": p.stdout.decode("utf-8", "replace"), "stderr": p.stderr.decode("utf-8", "replace")[:300]})
+    finally:
+        for sub in (("r", "nox"), ("e1",)):
+            try:
+                os.chmod(os.path.join(d, *sub), 0o755)
+            except OSError:
+                pass
+        shutil.rmtree(d, ignore_errors=True)
+
+
+def perm_prefix_octal(ctx, forest):
+    """-perm -MODE and /MODE for MODE written as chmod writes a number built up from nothing: +OCTAL (the bare +OCTAL is the old
+    spelling of /OCTAL and is refused); two operators before the number are refused, not read as a sign"""
+    d = os.path.join(forest.dir, b"pp")
+    os.mkdir(d)
+    for name, mode in ((b"a", 0o644), (b"b", 0o600), (b"c", 0o004)):
+        open(os.path.join(d, name), "wb").close()
+        os.chmod(os.path.join(d, name), mode)
+    for op, want in (("-+644", [b"pp/a"]), ("/+044", [b"pp/a", b"pp/c"]), ("-+0", [b"pp/a", b"pp/b", b"pp/c"]), ("-=600", [b"pp/a", b"pp/b"]),
+                     ("+644", None), ("--+4", None), ("-+-4", None), ("/=+4", None)):
+        line = "find - %s %s" % (fw.hexs(forest.dir), xc.hexlist([b"pp", b"-type", b"f", b"-perm", op.encode(), b"-print0"]))
+        code, out, err = wc.decode_find(xc.run_impl([line])[0])
+        got = sorted(out.split(b"\0")[:-1])
+        ctx.count(("perm-prefix-octal", op), True, "perm-prefix-octal")
+        ok = (code == 1 and got == []) if want is None else (code == 0 and got == sorted(want))
+        if not ok:
+            ctx.violation("find pp -type f -perm %s: exit %s, matched %r; expected %s" % (op, code, got, "to be refused" if want is None else sorted(want)),
+                          {"property": "C13", "kind": "perm-prefix-octal", "operand": op, "exit": str(code), "matched": [g.decode() for g in got]})
 
 
 def replay(ctx, rep):
